@@ -546,9 +546,10 @@ class Monitor:
             if src_dt == wd and name in ("to", "type", "type_as", "half", "float", "bfloat16", "double"):
                 cls_, tol = "move", torch.zeros_like(A)  # no dtype change: a pure move
             else:
-                # a dtype move is judged in the coarser of the two dtypes (the shadow was rounded in the source dtype)
-                coarse_dt = wd if num.eps(wd) >= num.eps(src_dt) else src_dt
-                cls_, tol = "rescale", 4 * num.ulp(big, coarse_dt) + 4 * num.ulp(big, wd)
+                # a dtype move is judged in the coarser of the two dtypes (the shadow was rounded in the source dtype);
+                # which one is coarser depends on the magnitude: below float16's normal range its spacing is absolute and
+                # exceeds bfloat16's
+                cls_, tol = "rescale", 4 * torch.maximum(num.ulp(big, wd), num.ulp(big, src_dt)) + 4 * num.ulp(big, wd)
         else:
             cls_, tol = "pass", 8 * num.ulp(big, wd)
         ctx.count("compared:" + cls_)
